@@ -517,8 +517,15 @@ def rule_require(ctx, res):
     from ..predlang import pred_lang, NotAPredicate
     from ..lang import Lang
     ALL = Lang.all_strings()
-    unsafe = ALL.concat(Lang.literal(b'./')).concat(ALL).union(
-        Lang.literal(b'/').concat(ALL))
+    # a `..` path component anywhere -- also as the last one: a load-path
+    # template may continue with `/` right behind the `?` (`?/init.lua`) --
+    # or an absolute path.  (A single-dot step stays inside the directory;
+    # rejecting it as well is allowed, not demanded.)
+    EPS = Lang.literal(b'')
+    unsafe = EPS.union(ALL.concat(Lang.literal(b'/'))).concat(
+        Lang.literal(b'..')).concat(
+            EPS.union(Lang.literal(b'/').concat(ALL))).union(
+                Lang.literal(b'/').concat(ALL))
     for (call, arg, what) in sinks:
         inst = '{}({})'.format(what, unparse(arg, 40))
         loc = f.module.loc(call)
@@ -527,6 +534,7 @@ def rule_require(ctx, res):
         # dominating raising guard rejects
         passing = ALL
         n_guards = 0
+        unread = []
         for (g, fail, ok) in guards:
             if not all(cfg.dominates(g, s_) for s_ in sink_nodes):
                 continue
@@ -537,6 +545,7 @@ def rule_require(ctx, res):
             try:
                 rej = pred_lang(g.ast, views)
             except NotAPredicate:
+                unread.append(unparse(g.ast, 60))
                 continue
             if fail == 'false':
                 rej = rej.complement()
@@ -546,8 +555,15 @@ def rule_require(ctx, res):
         if w is None:
             res.holds('R-C12-taint', qual, inst,
                       'every string that passes the raising filter ({} '
-                      'guard(s)) neither contains "./" nor starts with '
-                      '"/"'.format(n_guards), loc)
+                      'guard(s)) has no `..` path component (first, middle '
+                      'or last) and does not start with "/"'.format(
+                          n_guards), loc)
+        elif unread:
+            res.undecided(
+                'R-C12-taint', qual, inst,
+                'a raising filter on the require string is written in a '
+                'form outside the predicate model ({}); without it {!r} '
+                'would pass'.format('; '.join(unread[:2]), w), loc)
         else:
             res.violation(
                 'R-C12-taint', qual, inst,
